@@ -18,14 +18,38 @@ Values are free terms.  Core Lean only.
 -/
 namespace PwVerif.FuncWrap
 
-/-- values: `nd` = `NOT_DATA`; `atom` = an opaque python object; `node tag keys vs` = any compound
-(`tuple`, `list`, `dict` with keys, a dataclass instance `dc`, a table `df`, or the free application
-`app<i>` of an uninterpreted function symbol to its bound arguments) -/
+/-- values: `nd` = `NOT_DATA`; `atom` = a python object that is fully described by what it prints (an int,
+a str, `None`: nobody compares these by identity); `obj id kind` = a python object WITH AN IDENTITY: `id`
+is what `is` compares, `kind` is all that `==`, `repr` and a copy can see of it (a sentinel `object()`, a
+marker instance, a mutable default list, a class or function object, an object whose `__eq__` lies, one
+that refuses to be copied …) — two `obj` with the same `kind` and different `id` are "an equal copy", not
+"the same object"; `node tag keys vs` = any compound (`tuple`, `list`, `dict` with keys, a dataclass
+instance `dc`, a table `df`, or the free application `app<i>` of an uninterpreted function symbol to its
+bound arguments) -/
 inductive Val where
   | nd
   | atom (s : String)
+  | obj (id : Nat) (kind : String)
   | node (tag : String) (keys : List String) (vs : List Val)
   deriving Repr, Inhabited
+
+/-- python's `a is b` on objects with identity -/
+def Val.sameObj : Val → Val → Bool
+  | .obj i _, .obj j _ => i == j
+  | _, _ => false
+
+/-- all that `==` / `repr` can tell: the kind, not the identity -/
+def Val.looksLike : Val → Val → Bool
+  | .obj _ k, .obj _ k' => k == k'
+  | .atom s, .atom t => s == t
+  | .nd, .nd => true
+  | _, _ => false
+
+/-- `copy.deepcopy(v)` of an object with identity: the same kind under the fresh identity `fresh` (values
+without identity are their own copies) -/
+def Val.copyAs (fresh : Nat) : Val → Val
+  | .obj _ k => .obj fresh k
+  | v => v
 
 def Val.isData : Val → Bool
   | .nd => false
@@ -618,5 +642,38 @@ def dcInPreview : List Field → List Hint → List InPrev
   | f :: fs, h :: hs =>
     { label := f.name, hint := h, dflt := match f.dflt with | .value v => v | _ => .nd } :: dcInPreview fs hs
   | _, _ => []
+
+/-! ## Two readings the code does NOT have (kept for the witnesses in `Props/C17.lean`)
+
+The labels `item_0 … item_{n-1}` are created, kept and iterated in *channel creation order* (python `dict`
+insertion order, `itemLabels` above); nothing in the pinned code sorts them.  Sorting them as strings is a
+different order from `n = 11` on (`item_10 < item_2`).  And `_setup_node` hands every instance the default
+*object* of the preview, not a copy of it. -/
+
+/-- python's `<` on `str` (code point by code point, a proper prefix is smaller) -/
+def lexLt : List Char → List Char → Bool
+  | [], [] => false
+  | [], _ :: _ => true
+  | _ :: _, [] => false
+  | a :: as, b :: bs => a.toNat < b.toNat || (a.toNat == b.toNat && lexLt as bs)
+
+def insertLex (s : String) : List String → List String
+  | [] => [s]
+  | t :: r => if lexLt s.toList t.toList then s :: t :: r else t :: insertLex s r
+
+/-- `sorted(labels)` -/
+def sortLex (l : List String) : List String := l.foldr insertLex []
+
+/-- `[d[k] for k in sorted(d)]`: the list a *sorting* `InputsToList._on_run` would build -/
+def listBodySorted (ins : Panel) : Val :=
+  Val.list ((sortLex (labels ins)).filterMap fun l => ins.lookup l)
+
+/-- a `_setup_node` that gave each instance `deepcopy(default)`: the `i`-th input holds a copy under the
+fresh identity `fresh i` -/
+def setupInsCopied (fresh : Nat → Nat) : Nat → List InPrev → List Chan
+  | _, [] => []
+  | i, p :: ps =>
+    { label := p.label, hint := p.hint, dflt := p.dflt.copyAs (fresh i), value := p.dflt.copyAs (fresh i) }
+      :: setupInsCopied fresh (i + 1) ps
 
 end PwVerif.FuncWrap
